@@ -303,6 +303,20 @@ impl DeclareCommand {
 
             self.apply_attributes_after_update(var, verb)?;
         } else {
+            // A readonly global variable may not be hidden by a local one (readonly
+            // locals of calling functions may).
+            if create_var_local
+                && context
+                    .shell
+                    .env()
+                    .get(name.as_str())
+                    .is_some_and(|(scope, existing)| {
+                        matches!(scope, EnvironmentScope::Global) && existing.is_readonly()
+                    })
+            {
+                return Err(ErrorKind::ReadonlyVariable.into());
+            }
+
             let unset_type = if self.make_indexed_array.is_some() {
                 ShellValueUnsetType::IndexedArray
             } else if self.make_associative_array.is_some() {
